@@ -24,7 +24,7 @@ import (
 
 func init() { verbs["C19"] = runC19 }
 
-var raceOps = []string{"verify", "authorize", "query", "string", "getblockid", "createblock", "append", "seal", "serialize", "revids", "parse", "code"}
+var raceOps = []string{"verify", "authorize", "query", "string", "getblockid", "createblock", "append", "seal", "serialize", "revids", "parse", "code", "authorize-parsed"}
 
 type raceShared struct {
 	tok     *biscuit.Biscuit
@@ -33,6 +33,8 @@ type raceShared struct {
 	rule    biscuit.Rule
 	p       parser.Parser
 	setFact biscuit.Fact
+	pa      biscuit.ParsedAuthorizer // a parsed authorizer (facts, rule, check, several policies) every goroutine adds to its own authorizer
+	pb      biscuit.ParsedBlock
 }
 
 func raceOp(sh *raceShared, op string, k int) (res string) {
@@ -61,6 +63,25 @@ func raceOp(sh *raceShared, op string, k int) (res string) {
 			az.AddCheck(rc)
 		}
 		az.AddPolicy(sh.policy)
+		return authErrClass(az.Authorize())
+	case "authorize-parsed":
+		// the shared parsed authorizer and block go in first, then this request's own policy,
+		// which decides: each goroutine must get the answer of ITS policy
+		az, err := sh.tok.AuthorizerFor(biscuit.WithSingularRootPublicKey(pub), biscuitOpts(AuthCase{MaxFacts: 1000, MaxIter: 100}))
+		if err != nil {
+			return rejectClass(err)
+		}
+		az.AddAuthorizer(sh.pa)
+		az.AddBlock(sh.pb)
+		az.AddFact(biscuit.Fact{Predicate: biscuit.Predicate{Name: "request", IDs: []biscuit.Term{biscuit.Integer(int64(k % 5))}}})
+		kind := "allow"
+		if k%2 == 1 {
+			kind = "deny"
+		}
+		if own, err := sh.p.Policy(fmt.Sprintf("%s if request(%d)", kind, k%5), nil); err == nil {
+			az.AddPolicy(own)
+			az.AddCheck(sh.check)
+		}
 		return authErrClass(az.Authorize())
 	case "query":
 		az, err := sh.tok.AuthorizerFor(biscuit.WithSingularRootPublicKey(pub), biscuitOpts(AuthCase{MaxFacts: 1000, MaxIter: 100}))
@@ -176,7 +197,26 @@ func raceShare(r *Rng) (*raceShared, error) {
 	if err != nil {
 		return nil, err
 	}
-	return &raceShared{tok: tok, check: ck, policy: pol, rule: rl, p: p, setFact: sf}, nil
+	// parsed once, shared by all goroutines: policies that match nothing (1-7 of them, so that
+	// the parsed slices sit at various distances from a capacity boundary), facts, a rule, checks
+	var atext strings.Builder
+	atext.WriteString(`seen("shared"); known($x) <- seen($x); check if seen("shared");`)
+	for i, n := 0, 1+r.Intn(7); i < n; i++ {
+		fmt.Fprintf(&atext, ` deny if never(%d);`, i)
+	}
+	pa, err := p.Authorizer(atext.String(), nil)
+	if err != nil {
+		return nil, err
+	}
+	var btext strings.Builder
+	for i, n := 0, 1+r.Intn(7); i < n; i++ {
+		fmt.Fprintf(&btext, `extra(%d); check if extra(%d);`, i, i)
+	}
+	pblk, err := p.Block(btext.String(), nil)
+	if err != nil {
+		return nil, err
+	}
+	return &raceShared{tok: tok, check: ck, policy: pol, rule: rl, p: p, setFact: sf, pa: pa, pb: pblk}, nil
 }
 
 var raceEpoch int // mix number: patterns differ from mix to mix, so each mix meets some for the first time
